@@ -26,10 +26,11 @@ Record sstate := mkSS {
   ss_hs : list shandle;
   ss_cells : list json;
   ss_gen : nat;                     (* a fresh number for every job creation *)
-  ss_planted : list path            (* foreign directories the harness put into a workspace: never jobs *)
+  ss_planted : list path;           (* foreign directories the harness put into a workspace: never jobs *)
+  ss_orph : list nat                (* cells one of whose handles was moved to another project (trigger bookkeeping) *)
 }.
 
-Definition ss0 : sstate := mkSS [] [] [] [] 0 [].
+Definition ss0 : sstate := mkSS [] [] [] [] 0 [] [].
 
 (* expected result class of an operation *)
 Inductive sres := SOk | SErr (e : exn) | SAny | SJson (v : json) | SIds (l : list str) | SNum (n : N) | SBool (b : bool).
@@ -44,27 +45,27 @@ Fixpoint pset {A} (p : path) (x : A) (l : list (path * A)) : list (path * A) :=
 
 Definition proj_of (s : sstate) (r : path) : sproj := match plookup r (ss_projs s) with Some p => p | None => [] end.
 Definition set_proj (s : sstate) (r : path) (p : sproj) : sstate :=
-  mkSS (pset r p (ss_projs s)) (ss_sess s) (ss_hs s) (ss_cells s) (ss_gen s) (ss_planted s).
+  mkSS (pset r p (ss_projs s)) (ss_sess s) (ss_hs s) (ss_cells s) (ss_gen s) (ss_planted s) (ss_orph s).
 Definition hS (s : sstate) (h : nat) : shandle := nth h (ss_hs s) (mkSH [] 0 false None).
 Definition cellS (s : sstate) (c : nat) : json := nth c (ss_cells s) (JObj []).
 Definition set_hS (s : sstate) (h : nat) (x : shandle) : sstate :=
-  mkSS (ss_projs s) (ss_sess s) (set_nth h x (ss_hs s)) (ss_cells s) (ss_gen s) (ss_planted s).
+  mkSS (ss_projs s) (ss_sess s) (set_nth h x (ss_hs s)) (ss_cells s) (ss_gen s) (ss_planted s) (ss_orph s).
 Definition set_cellS (s : sstate) (c : nat) (v : json) : sstate :=
-  mkSS (ss_projs s) (ss_sess s) (ss_hs s) (set_nth c v (ss_cells s)) (ss_gen s) (ss_planted s).
+  mkSS (ss_projs s) (ss_sess s) (ss_hs s) (set_nth c v (ss_cells s)) (ss_gen s) (ss_planted s) (ss_orph s).
 Definition add_hS (s : sstate) (x : shandle) : sstate :=
-  mkSS (ss_projs s) (ss_sess s) (ss_hs s ++ [x]) (ss_cells s) (ss_gen s) (ss_planted s).
+  mkSS (ss_projs s) (ss_sess s) (ss_hs s ++ [x]) (ss_cells s) (ss_gen s) (ss_planted s) (ss_orph s).
 Definition add_cellS (s : sstate) (v : json) : sstate :=
-  mkSS (ss_projs s) (ss_sess s) (ss_hs s) (ss_cells s ++ [v]) (ss_gen s) (ss_planted s).
+  mkSS (ss_projs s) (ss_sess s) (ss_hs s) (ss_cells s ++ [v]) (ss_gen s) (ss_planted s) (ss_orph s).
 Definition add_sessS (s : sstate) (r : path) : sstate :=
-  mkSS (ss_projs s) (ss_sess s ++ [r]) (ss_hs s) (ss_cells s) (ss_gen s) (ss_planted s).
+  mkSS (ss_projs s) (ss_sess s ++ [r]) (ss_hs s) (ss_cells s) (ss_gen s) (ss_planted s) (ss_orph s).
 Definition bump (s : sstate) : sstate :=
-  mkSS (ss_projs s) (ss_sess s) (ss_hs s) (ss_cells s) (S (ss_gen s)) (ss_planted s).
+  mkSS (ss_projs s) (ss_sess s) (ss_hs s) (ss_cells s) (S (ss_gen s)) (ss_planted s) (ss_orph s).
 Definition sessS (s : sstate) (i : nat) : path := nth i (ss_sess s) [].
 
 (* the shallow copies of a handle: all handles with the same cell *)
 Definition map_cell (s : sstate) (c : nat) (f : shandle -> shandle) : sstate :=
   mkSS (ss_projs s) (ss_sess s) (map (fun h => if Nat.eqb (sh_cell h) c then f h else h) (ss_hs s))
-       (ss_cells s) (ss_gen s) (ss_planted s).
+       (ss_cells s) (ss_gen s) (ss_planted s) (ss_orph s).
 
 Definition upd_spec (old u : json) (ov : bool) : option json :=
   if ov then Some (dict_update old u)
@@ -173,7 +174,7 @@ Section Spec.
         (match job_of s h with
          | Some j => set_job s h (mkSJ (j_sp j) (j_doc j) (set_file rel b (j_files j)) (j_gen j))
          | None => s end, SAny)
-    | OPlantDir p => (mkSS (ss_projs s) (ss_sess s) (ss_hs s) (ss_cells s) (ss_gen s) (p :: ss_planted s), SAny)
+    | OPlantDir p => (mkSS (ss_projs s) (ss_sess s) (ss_hs s) (ss_cells s) (ss_gen s) (p :: ss_planted s) (ss_orph s), SAny)
     | OPlantFile _ _ => (s, SAny)
     | OIds si => (s, SIds (map fst (proj_of s (sessS s si))))
     | OLen si => (s, SNum (N.of_nat (length (proj_of s (sessS s si)))))
@@ -211,7 +212,9 @@ Section Spec.
                      let s1 := set_proj s (sh_root x) (aremove (cid sp) (proj_of s (sh_root x))) in
                      let s2 := bump (set_proj s1 r' (aset (cid sp) (mkSJ sp (j_doc j) (j_files j) (ss_gen s)) (proj_of s1 r'))) in
                      (* only this handle adopts the destination; it gets a cell of its own *)
-                     (set_hS (add_cellS s2 sp) h (mkSH r' (length (ss_cells s2)) false None), SOk)
+                     let s3 := set_hS (add_cellS s2 sp) h (mkSH r' (length (ss_cells s2)) false None) in
+                     (mkSS (ss_projs s3) (ss_sess s3) (ss_hs s3) (ss_cells s3) (ss_gen s3) (ss_planted s3)
+                           (sh_cell x :: ss_orph s3), SOk)
                  end
         end
     | OClone sj h =>
@@ -273,7 +276,10 @@ Section Spec.
 
   Definition trigger (s : sstate) (o : op) (r : sres) (out : oval) : nat :=
     match o with
-    | OEdit _ _ _ | OAssign _ _ | OUpdateSp _ _ _ =>
+    | OEdit h _ _ | OAssign h _ | OUpdateSp h _ _ =>
+        (* tag 7: the state point is changed through a shallow copy of a handle that was moved to another
+           project: the moved handle is still the first of the cell's _jobs *)
+        if existsb (Nat.eqb (sh_cell (hS s h))) (ss_orph s) then 7 else
         match r, out with
         | SErr EDestinationExists, _ => 2
         | SErr EKeyError, _ => 0
